@@ -62,12 +62,26 @@ func asInstrs(cs []ssa.CallInstruction) []ssa.Instruction {
 func ruleC01a(c *Ctx, rule string) {
 	c.describe(rule, "dom: single application — (*rowStore).processInserts has exactly one Tree.Update call site, not nested in an inner loop, guarded by the exact test insert.key != nil (skip entries carry a nil key), and the offset is recorded for every insert before that test; (*table).doInsert has exactly two rowStore.insert call sites: one outside any loop under hasMainValue, one inside the loop over the additional array values")
 	if pi := c.need(rule, "(*z.rowStore).processInserts"); pi != nil {
-		ups := callsTo(pi, "(*z/bytetree.Tree).Update")
-		if !c.check(rule, "processInserts: one Tree.Update call site", pi.Pos(), len(ups) == 1, "exactly one call site", "found "+itoa(len(ups))+" Tree.Update call sites: every point would be applied that many times (or never)") {
+		ap, ups := ingestApplier(c.P)
+		if ap == nil || !privateHelperOf(c.P, ap, pi) {
+			c.bad(rule, "processInserts: one Tree.Update call site", pi.Pos(), "the memstore tree is updated in "+itoa(len(ups))+" place(s), not in exactly one function that is processInserts or a private helper of it: points can be applied more than once (or never)")
+			return
+		}
+		c.touch(ap)
+		if !c.check(rule, "processInserts: one Tree.Update call site", ap.Pos(), len(ups) == 1, "exactly one call site (in "+stableName(ap)+")", "found "+itoa(len(ups))+" Tree.Update call sites: every point would be applied that many times (or never)") {
 			return
 		}
 		up := ups[0]
-		c.check(rule, "processInserts: Tree.Update not in an inner loop", up.Pos(), len(loopsContaining(pi, up.Block())) == 1, "only the select loop contains it", "Tree.Update is nested in an inner loop: a point can be applied several times")
+		// loop nesting: the update (or the single call of the helper containing it) sits directly in the select loop
+		nest := len(loopsContaining(ap, up.Block()))
+		if ap != pi {
+			cs := callSitesOf(c.P, ap)
+			nest = -1
+			if len(cs) == 1 && len(loopsContaining(ap, up.Block())) == 0 {
+				nest = len(loopsContaining(pi, cs[0].Block()))
+			}
+		}
+		c.check(rule, "processInserts: Tree.Update not in an inner loop", up.Pos(), nest == 1, "only the select loop contains it", "Tree.Update is nested in an inner loop (or its helper is called from several places): a point can be applied several times")
 		guarded := false
 		for _, g := range guardsOf(up.Block()) {
 			if x, nn, ok := nilTest(g); ok && nn && isFieldLoad(x, "z.insert.key") {
@@ -76,12 +90,12 @@ func ruleC01a(c *Ctx, rule string) {
 		}
 		c.check(rule, "processInserts: Tree.Update guarded by insert.key != nil", up.Pos(), guarded, "the update is applied exactly when the entry carries a key (non-nil), skip entries (nil key) only advance the offset", "the guard of Tree.Update is not the exact test insert.key != nil: points with an empty (but non-nil) group key — no group-by dimension present — would be dropped, or skip entries would be applied")
 		var mu ssa.Instruction
-		for _, in := range instrs(pi) {
+		for _, in := range instrs(ap) {
 			if m, ok := in.(*ssa.MapUpdate); ok && isFieldLoad(m.Map, "z.memstore.offsetsBySource") {
 				mu = in
 			}
 		}
-		c.check(rule, "processInserts: offset recorded for every insert", up.Pos(), mu != nil && instrDominates(mu, up) && mu.Block() == firstBlockOfCase(up, mu), "ms.offsetsBySource[source] = offset precedes the key test in the same select case", "the offset of an insert is not recorded unconditionally before the row is applied")
+		c.check(rule, "processInserts: offset recorded for every insert", up.Pos(), mu != nil && instrDominates(mu, up), "ms.offsetsBySource[source] = offset precedes the key test", "the offset of an insert is not recorded unconditionally before the row is applied")
 	}
 	if di := c.need(rule, "(*z.table).doInsert"); di != nil {
 		ins := callsTo(di, "(*z.rowStore).insert")
